@@ -5,10 +5,67 @@
 import JsonataModel.Model.Interp
 import JsonataModel.Model.Proto
 import JsonataModel.Model.Parser
+import JsonataModel.Model.Ext
 
 open Jsonata Jsonata.Proto
 
 def fuelDefault : Nat := 400
+
+/-! ### extensions -/
+
+open Jsonata.Ext in
+def goTyOf : String → Option GoTy
+  | "f64" => some .f64 | "int" => some .int | "u8" => some .u8 | "str" => some .str | "bool" => some .bool
+  | "bytes" => some .bytes | "iface" => some .iface | "value" => some .value | "slice" => some .slice
+  | "map" => some .map | "callable" => some .callable
+  | "opt:f64" => some (.opt .f64) | "opt:int" => some (.opt .int) | "opt:str" => some (.opt .str)
+  | "opt:bool" => some (.opt .bool) | "opt:iface" => some (.opt .iface) | "opt:value" => some (.opt .value)
+  | "opt:callable" => some (.opt .callable) | "opt:opt:f64" => some (.opt (.opt .f64))
+  | _ => none
+
+open Jsonata.Ext in
+partial def recvToText : Recv Float → String
+  | .f64 x => "f64:" ++ valToText (.num x)
+  | .int n => "int:" ++ toString n
+  | .u8 n => "u8:" ++ toString n
+  | .str s => "str:s" ++ stringToHex s
+  | .bool b => "bool:" ++ (if b then "t" else "f")
+  | .bytes s => "bytes:s" ++ stringToHex s
+  | .any v => "any:" ++ valToText v
+  | .nilAny => "nil"
+  | .optUnset => "unset"
+  | .optSet r => "set(" ++ recvToText r ++ ")"
+
+open Jsonata.Ext in
+def handleExt (paramsS variadicS chS uhS ctxS argsS : String) : String :=
+  let params? := if paramsS.isEmpty then some [] else (paramsS.splitOn ",").mapM goTyOf
+  let ch? : Option CHk := match chS with | "none" => some .none_ | "noargs" => some .whenNoArgs | "firststr" => some .whenFirstIsString | _ => none
+  let uh? : Option UHk := match uhS with | "none" => some .none_ | "any" => some .anyUndefined | "first" => some .firstUndefined | _ => none
+  match params?, ch?, uh?, parseSexp ctxS, parseSexp argsS with
+  | some params, some ch, some uh, some cs, some (.list as) =>
+    match optValOfSexp cs, as.mapM optValOfSexp with
+    | some ctx, some argv =>
+      let spec : Spec := { params := params, variadic := variadicS == "t", ch := ch, uh := uh }
+      if !validParams params spec.variadic then "invalid"
+      else match call spec ctx argv with
+        | .called rs => "call" ++ String.join (rs.map fun r => " " ++ recvToText r)
+        | .undef => "undef"
+        | .argCount => "argcount"
+        | .argType i => "argtype " ++ toString i
+    | _, _ => "bad values"
+  | _, _, _, _, _ => "bad ext request"
+
+open Jsonata.Ext in
+def handleRegistry (opsS : String) : String :=
+  let step1 (acc : World × List String) (o : String) : World × List String :=
+    match o.splitOn " " with
+    | ["G", k, v] => (step acc.1 (.regGlobal k v.toNat!), acc.2)
+    | ["C"] => (step acc.1 .compile, acc.2)
+    | ["L", e, k, v] => (step acc.1 (.regLocal e.toNat! k v.toNat!), acc.2)
+    | ["Q", e, k] => (acc.1, acc.2 ++ [match lookup acc.1 e.toNat! k with | some v => toString v | none => "-"])
+    | _ => (acc.1, acc.2 ++ ["?"])
+  let r := (opsS.splitOn ";").foldl step1 (({} : World), [])
+  " ".intercalate r.2
 
 def handle (line : String) : String :=
   match line.splitOn "\t" with
@@ -31,6 +88,14 @@ def handle (line : String) : String :=
     match Jsonata.Parse.parse #[] with
     | .ok node => "ok " ++ nodeToText node
     | .error e => "err " ++ e.type ++ " " ++ toString e.position
+  | ["ext", paramsS, variadicS, chS, uhS, ctxS, argsS] => handleExt paramsS variadicS chS uhS ctxS argsS
+  | ["registry", opsS] => handleRegistry opsS
+  | ["validname", hexS] =>
+    match hexToBytes hexS.toList with
+    | some bs => match String.fromUTF8? (ByteArray.mk bs.toArray) with
+      | some str => if Jsonata.Ext.validName str then "t" else "f"
+      | none => "bad utf8"
+    | none => "bad hex"
   | ["ping"] => "pong"
   | _ => "bad-op"
 
